@@ -190,6 +190,7 @@ zw_value_clone (zw_value const *val, size_t pos, zw_error **out_err)
   return capture_errors ([&] () {
       auto clone = val->clone ();
       assert (clone != nullptr);
+      clone->set_pos (pos);
       return clone.release ();
     }, nullptr, out_err);
 }
